@@ -8,7 +8,8 @@ ID = "C19"
 RULE = ("recurrence rules from seeded generation: every FREQ; COUNT xor UNTIL (date, floating, UTC) or neither; INTERVAL; each BYxxx part with 1-4 values "
         "positive and negative incl. range ends and zero; ordinal weekdays +-1..53; WKST; leap-month BYMONTH + RSCALE (names in upper, lower and mixed case) / SKIP (with and without RSCALE); keys in random case; scalar vs "
         "list vs tuple values; constructed via keywords, a mapping, item assignment; plus an exhaustive sweep of every single part at each of its boundary "
-        "values with every FREQ; decode side also with a trailing ';'. Oracles: RECUR grammar with [RSCALE;]FREQ first (R4), typed part-by-part comparison "
+        "values with every FREQ; decode side also with a trailing ';'; YEARLY/MONTHLY and small-COUNT rules are also put to use (RRULE of an event, RRULE of a VTIMEZONE observance converted by both providers) "
+        "and must encode to the same text afterwards. Oracles: RECUR grammar with [RSCALE;]FREQ first (R4), typed part-by-part comparison "
         "after decode, text fixpoint, and first 50 occurrences of dateutil.rrulestr(text) vs dateutil.rrule built from the supplied parts (R9); "
         "non-trivial = at least two parts besides FREQ or a negative/ordinal value; distinct by case hash")
 ASSUMPTIONS = ["R4.recur_problems is the RFC 5545 3.3.10 / RFC 7529 RECUR grammar", "dateutil.rrule is the standard expander (R9)",
@@ -265,6 +266,45 @@ def check_case(ctx, case):
     again = back.to_ical().decode("utf-8")
     if again != text:
         ctx.fail("reencode", observed=again, expected=text)
+    # the rule *in use*: as RRULE of an event and of a VTIMEZONE observance that both providers turn into a zone - whatever reads the rule
+    # (and whatever it answers), the caller's rule encodes to the same text afterwards
+    if want_typed["FREQ"][0][1] in ("YEARLY", "MONTHLY") and "COUNT" not in want_typed or want_typed.get("COUNT", [("int", 10 ** 6)])[0][1] <= 50:
+        import icalendar
+        from icalendar.timezone.tzp import TZP
+        used = []
+        try:
+            with _time_limit(1):
+                ev = icalendar.Event()
+                ev.add("dtstart", datetime(2001, 1, 1, 2, 0, 0))
+                ev.add("rrule", rec)
+                ev.to_ical()
+                icalendar.Event.from_ical(ev.to_ical())
+                tzc = icalendar.Timezone()
+                tzc.add("tzid", "Verif/Recur")
+                st = icalendar.TimezoneStandard()
+                st.add("dtstart", datetime(1990, 1, 1, 2, 0, 0))
+                st.add("tzoffsetfrom", timedelta(hours=2))
+                st.add("tzoffsetto", timedelta(hours=1))
+                st.add("rrule", rec)
+                tzc.add_component(st)
+                for prov in ("pytz", "zoneinfo"):
+                    try:
+                        tzc.to_tz(TZP(prov), lookup_tzid=False)
+                        used.append(prov)
+                    except _Timeout:
+                        raise
+                    except Exception:
+                        used.append(prov + ":refused")
+                tzc.to_ical()
+        except _Timeout:
+            ctx.count("rule-in-use:time-limit")
+        except Exception as e:
+            ctx.count("rule-in-use:setup-refused:" + type(e).__name__)
+        after = rec.to_ical().decode("utf-8")
+        if after != text:
+            ctx.fail("rule-changed-by-use", observed=(after, used), expected=text)
+            return
+        ctx.count("rule-in-use-checks")
     # occurrences
     if any(n in names for n in ("RSCALE", "SKIP")) or any(t[0] == "month" and t[2] for t in want_typed.get("BYMONTH", [])):
         ctx.count("occurrences:skipped-rfc7529")
